@@ -63,6 +63,23 @@ class C14(Prop):
 
     def cases(self, rng: random.Random, tier: str) -> Iterable[dict]:
         forced = 2
+        # whatever the seed: (a) the response is itself a DICT keyed by the interrupt's own output name — a value like any other, whether
+        # the caller supplies it on resume or a handler returns it; (b) an interrupt whose output NO node consumes (last position, or one
+        # output of several), resumed under the strictest policy for caller-supplied internal values: a response is never refused
+        for variant in ("owndict", "owndict", "strict-last", "strict-multi"):
+            if variant == "owndict":
+                nodes = [{"name": "ask", "kind": "interrupt", "params": [["x", None]], "dataOuts": ["decision"], "body": {"b": "handler", "k": None}},
+                         {"name": "use", "kind": "fn", "params": [["decision", None]], "dataOuts": ["u"], "body": {"b": "tag", "t": "use"}}]
+                yield {"program": [{"name": "g0", "nodes": nodes, "bound": []}], "values": [["x", rng.randint(0, 3)]], "nested": False, "seed": rng.randint(0, 10**6),
+                       "cfg": {}, "responses": [{"d": [["decision", rng.choice([7, "yes", {"d": [["a", 1]]}])]]}], "pyOnly": True}
+                continue
+            outs = ["verdict"] if variant == "strict-last" else ["verdict", "note"]
+            nodes = [{"name": "pre", "kind": "fn", "params": [["x", None]], "dataOuts": ["draft"], "body": {"b": "tag", "t": "pre"}},
+                     {"name": "ask", "kind": "interrupt", "params": [["draft", None]], "dataOuts": outs, "body": {"b": "handler", "k": None}}]
+            if variant == "strict-multi":
+                nodes.append({"name": "use", "kind": "fn", "params": [["verdict", None]], "dataOuts": ["u"], "body": {"b": "tag", "t": "use"}})
+            yield {"program": [{"name": "g0", "nodes": nodes, "bound": []}], "values": [["x", rng.randint(0, 3)]], "nested": False, "seed": rng.randint(0, 10**6),
+                   "cfg": {"onInternal": "error"}, "responses": [rng.randint(30, 60)]}
         while True:
             if forced or rng.random() < 0.04:
                 forced = max(0, forced - 1)
@@ -228,8 +245,8 @@ class C14(Prop):
 
     # ---------------------------------------------------------------- model
     def model(self, case: dict, driver: Any) -> Any:
-        if case.get("kind") == "repeat":
-            return None
+        if case.get("kind") == "repeat" or case.get("pyOnly"):
+            return None         # dict values are outside the model's value universe: the oracle judges
 
         def run(program: list[dict], values: list, i: int) -> dict:
             m = impl.model_obs(driver.ask({"op": "run", "program": program, "values": values, "runner": "async", "cfg": case.get("cfg", {})}))
@@ -244,7 +261,7 @@ class C14(Prop):
         return self._history(case, run)
 
     def compare(self, case: dict, i: Any, m: Any) -> str | None:
-        if case.get("kind") == "repeat":
+        if case.get("kind") == "repeat" or case.get("pyOnly"):
             return None      # a handler returning a dict is outside the body language of the model: the oracle judges
         if len(i["rounds"]) != len(m["rounds"]):
             return f"history length: impl={len(i['rounds'])} model={len(m['rounds'])}"
